@@ -288,6 +288,15 @@ where
         }
 
         if let Some(t) = result? {
+            // A string array is a delimited string. There is no escape sequence for the
+            // delimiter or for a value that is the same as a missing value.
+            if t.contains(DELIMITER) || is_missing_value(&t) {
+                return Err(io::Error::new(
+                    io::ErrorKind::InvalidInput,
+                    format!("invalid string array value: {t:?}"),
+                ));
+            }
+
             s.push_str(&t);
         } else {
             s.push(MISSING_VALUE);
@@ -295,6 +304,11 @@ where
     }
 
     value::write_value(writer, Some(Value::String(Some(&s))))
+}
+
+fn is_missing_value(s: &str) -> bool {
+    let mut chars = s.chars();
+    chars.next() == Some(MISSING_VALUE) && chars.next().is_none()
 }
 
 #[cfg(test)]
